@@ -14,6 +14,7 @@ SPEC = dict(
         "SymVerif.C31.series_invert_spec",
         "SymVerif.C31.series_log_spec",
         "SymVerif.C31.series_exp_spec",
+        "SymVerif.C31.isExpOf_unique",
         "SymVerif.C31.exp_taylor",
         "SymVerif.C31.sin_taylor",
         "SymVerif.C31.cos_taylor",
@@ -21,17 +22,32 @@ SPEC = dict(
         "SymVerif.C31.series_atanh_spec",
         "SymVerif.C31.series_sinh_spec",
         "SymVerif.C31.series_cosh_spec",
-        "SymVerif.C31.isExpOf_unique",
-        "SymVerif.C31.powDispatch_sound",
-        "SymVerif.C31.apply_sound",
+        "SymVerif.C31.series_tan_spec",
+        "SymVerif.C31.series_tanh_spec",
+        "SymVerif.C31.series_lambertw_spec",
+        "SymVerif.C31.series_nthroot_spec",
+        "SymVerif.C31.series_asin_spec",
+        "SymVerif.C31.series_asinh_spec",
+        "SymVerif.C31.fat_inj",
+        "SymVerif.C31.lambert_inj",
+        "SymVerif.C31.pow_inj_mod",
+        "SymVerif.C31.powDispatch_sound_all",
+        "SymVerif.C31.apply_sound_all",
         "SymVerif.C31.series_sound_partial",
+        "SymVerif.C31.apply_sound",
+        "SymVerif.C31.series_total_partial",
+        "SymVerif.C31.sampleRoot_den",
     ],
     partial=[
-        "SymVerif.C31.series_sound_partial: the composition theorem covers the decidable fragment `Series.covered` "
-        "(arithmetic, integer powers, exp, f^g, log, sin, cos, sec, atan, sinh, cosh, atanh, any nesting; about two "
-        "thirds of the generated cases); tan, tanh, asin, asinh, lambertw and rational powers are stated "
-        "(SymVerif.C31.C31_full = tan_stmt, tanh_stmt, lambertw_stmt, nthroot_stmt, asin_stmt, asinh_stmt) but not "
-        "proved: they need the convergence proofs of the Newton iterations on atan/atanh/w*e^w and of series_nthroot",
+        "SymVerif.C31.series_sound_partial: soundness of the model of series(e,x,prec) against every formal Taylor "
+        "series D of e (relation Den: sums, products, integer and rational powers, exp, f^g, log, sin, cos, sec, "
+        "tan, atan, asin, sinh, cosh, tanh, asinh, atanh, lambertw, any nesting). Partial because (1) the model "
+        "covers rational coefficients and non-negative exponents only: symbolic constants (sin(1+x), exp(c+..), "
+        "irrational roots) and Laurent intermediates (sin(x)/x, where the real code loses precision: known finding "
+        "D-C31-precloss) are outside; (2) completeness (the model answers whenever a denotation exists) is stated "
+        "as def C31_full, not proved; (3) existence of the denotation is proved constructively only on the "
+        "fragment `covered` (series_total_partial); tan/tanh/lambertw/asin/asinh/rational powers are characterised "
+        "by their defining equations, whose solutions are proved unique (fat_inj, lambert_inj, pow_inj_mod)",
     ],
     rule="series(f, x, prec) on expressions built through the public API and sent as canonical S-expression dumps; "
          "distinct = distinct (expression, order) lines; non-trivial = every series line (the `cov` lines, which only "
@@ -71,18 +87,20 @@ SPEC = dict(
                "Newton inversion series_invert (p*s = 1 mod x^prec), series_log (= integral of s'/s), series_exp "
                "(Newton iteration on log; equals Mathlib's exp composed with s mod x^prec), _series_sin/_series_cos "
                "(equal Mathlib's sin/cos composed with s), series_atan/atanh, series_sinh/cosh/sec, including all fast "
-               "paths; and the SeriesVisitor composition: for every expression of a decidable fragment, whenever the "
-               "model of series(e,x,prec) answers, its coefficients below prec are those of the formal Taylor series "
-               "of e. The remaining recurrences (tan, tanh, asin, asinh, lambertw, nthroot) are stated, modelled and "
-               "compared with the implementation on every generated case, and decided per case by two oracles.",
-    level_note="partial: 20 theorems proved; composition theorem series_sound_partial restricted to the fragment "
-               "`covered` (65% of generated cases). Not proved: tan/tanh/lambertw (Newton on inverse functions), "
-               "series_nthroot and its users asin/asinh/rational powers (C31_full). Tie: exact comparison of the "
+               "paths; the Newton iterations on inverse functions series_tan/tanh (atan g = s), series_lambertw "
+               "(g e^g = s), series_nthroot (g^n = s) and series_asin/asinh; and the SeriesVisitor composition: for "
+               "every expression, every order and every formal Taylor series D of the expression, whenever the model "
+               "of series(e,x,prec) answers, its coefficients below prec are those of D (solutions of the defining "
+               "equations proved unique); on a decidable fragment the existence of D is proved as well.",
+    level_note="partial: every recurrence of series.h that the model covers is proved (32 theorems), and the visitor "
+               "composition is proved sound against every formal Taylor series of the expression "
+               "(series_sound_partial). Partial because of the model's fragment (rational coefficients, no poles) and "
+               "because completeness (C31_full) is not proved. Tie: exact comparison of the "
                "complete coefficient dictionary (model vs library) plus two model-independent oracles (library "
-               "diff+subs Taylor coefficients; GMP power-series evaluator with textbook recurrences). On the current "
-               "/repo the check reports three genuine defects: series_acos with non-zero constant term (patch "
-               "proposed), series_nthroot sign of the leading-degree shift (patch proposed), and loss of precision "
-               "where a pole cancels, e.g. x/(exp(x)-1) (known-finding proposed).",
+               "diff+subs Taylor coefficients; GMP power-series evaluator with textbook recurrences). The check found three "
+               "genuine defects: series_acos with non-zero constant term (fixed ff5d4f6), series_nthroot sign of the "
+               "leading-degree shift (fixed ee8c9c2), and loss of precision where a pole cancels, e.g. x/(exp(x)-1) "
+               "(known finding D-C31-precloss).",
     technique="Lean 4 executable model over core Rat (dense coefficient lists, Except for every exception / "
               "out-of-fragment case); proofs in PowerSeries Q modulo X^n: congruence calculus, generic Newton-fold "
               "principle over the step_list schedule, ODE characterisation + uniqueness for exp/log, power-sum "
